@@ -143,8 +143,8 @@ PROPS = {
         "functions": ["Packet::decode (v3, v5)", "Packet::decode_async", "Header::decode_async", "decode_raw_header", "strict composition"],
         "bounds": {"quick": "about 45 shapes incl. malformed ones", "thorough": "all v3 shapes and v5 shapes up to 16 bytes"},
         "outside": "decode_async on readers that return Pending / short reads (await propagation + tokio ReadExact, not code of this crate)",
-        "tiers": {"quick": {"modules": ["g_c06", "p_c05"], "generators": ["c06_quick"], "select": r"__agree$|^c05_steps_(overlong_varint|zero_rem|reject_hl2)$", "timeout_s": 600, "mem_gb": 10, "jobs": 14},
-                  "thorough": {"modules": ["g_c06", "p_c05"], "generators": ["c06_thorough"], "select": r"__agree$|^c05_steps_(overlong_varint|zero_rem|reject_hl2)$", "timeout_s": 1800, "mem_gb": 12, "jobs": 10}},
+        "tiers": {"quick": {"modules": ["g_c06", "p_c05"], "generators": ["c06_quick"], "select": r"__agree(_ct)?$|^c05_steps_(overlong_varint|zero_rem|reject_hl2)$", "timeout_s": 600, "mem_gb": 10, "jobs": 14},
+                  "thorough": {"modules": ["g_c06", "p_c05"], "generators": ["c06_thorough"], "select": r"__agree(_ct)?$|^c05_steps_(overlong_varint|zero_rem|reject_hl2)$", "timeout_s": 1800, "mem_gb": 12, "jobs": 10}},
     },
     "C07": {
         "level": "model_checking",
@@ -239,8 +239,8 @@ PROPS = {
                 "shape, measured; for non-canonical v5 spellings (b) is that of the canonical sibling shape, the pairing is by construction of the catalogue and not itself a solver query; "
                 "the blocking/async front-ends return the same value as the strict one by C06",
         "functions": ["every body decode_async (twin)", "every Encodable::{encode, encode_len}"],
-        "bounds": {"quick": "13 v3 shapes direct; v5: every shape of the ack/suback/unsuback/disconnect/auth/subscribe/unsubscribe types and one shape of each other type", "thorough": "all accepted shapes of the C04 catalogue"},
-        "outside": "non-minimal property-length / remaining-length varints (lenient framing of the blocking decoder); v5 values outside the catalogue's shapes; as C04",
+        "bounds": {"quick": "13 v3 shapes direct; v5: every shape of the ack/suback/unsuback/disconnect/auth/subscribe/unsubscribe/connack types and one shape of each other type", "thorough": "all accepted shapes of the C04 catalogue"},
+        "outside": "non-minimal property-length / remaining-length varints (lenient framing of the blocking decoder); v5 values outside the catalogue's shapes; direct v3 queries for two-filter SUBSCRIBE and for CONNECT with will + user name + password (no verdict, measured) - those shapes are covered by C04 (decode) and C10 (encode) only; as C04",
         "tiers": {"quick": {"modules": ["g_c11"], "generators": ["c11_quick"], "timeout_s": 400, "mem_gb": 8, "jobs": 12},
                   "thorough": {"modules": ["g_c11"], "generators": ["c11_thorough"], "timeout_s": 1200, "mem_gb": 10, "jobs": 12}},
     },
@@ -253,9 +253,9 @@ PROPS = {
         "functions": ["GenericPollPacket::poll", "Packet::decode_async", "Packet::decode", "GenericPollPacketState::default"],
         "bounds": {"all": "C05 streams (bodies up to 4 bytes, headers up to 6 bytes) and the C06 shape list; sequences by induction, not by enumeration"},
         "outside": "real packets with 2-4 byte remaining-length fields (bodies >= 128 bytes) through the blocking/async decoders; the poll side covers wide headers with the generic header only",
-        "tiers": {"quick": {"modules": ["p_c05", "g_c06"], "generators": ["c06_quick"], "select": r"^c08_|^c05_steps_(all_rem2|all_rem2_hl3|all_rem2_hl5|empty_hl2|empty_hl3|empty_hl5)$|_(publish_q1_t1_p1|connack|suback_2|pingreq|puback|connect_v311_f02_c1|disconnect_empty|auth_empty|subscribe_1|puback_short|publish_q0_t1_p1_x03l1|unsubscribe_1_nonmin|unsubscribe_2_x26l1_1_nonmin)__agree$",
+        "tiers": {"quick": {"modules": ["p_c05", "g_c06"], "generators": ["c06_quick"], "select": r"^c08_|^c05_steps_(all_rem2|all_rem2_hl3|all_rem2_hl5|empty_hl2|empty_hl3|empty_hl5)$|_(publish_q1_t1_p1|connack|suback_2|pingreq|puback|connect_v311_f02_c1|disconnect_empty|auth_empty|subscribe_1|puback_short|publish_q0_t1_p1_x03l1|unsubscribe_1_nonmin|unsubscribe_2_x26l1_1_nonmin)__agree(_ct)?$",
                             "timeout_s": 900, "mem_gb": 10, "jobs": 14},
-                  "thorough": {"modules": ["p_c05", "g_c06"], "generators": ["c06_thorough"], "select": r"^c08_|^c05_steps_|__agree$", "timeout_s": 1800, "mem_gb": 12, "jobs": 10}},
+                  "thorough": {"modules": ["p_c05", "g_c06"], "generators": ["c06_thorough"], "select": r"^c08_|^c05_steps_|__agree(_ct)?$", "timeout_s": 1800, "mem_gb": 12, "jobs": 10}},
     },
     "C19": {
         "level": "model_checking",
